@@ -516,10 +516,42 @@ class C12:
                                         "is not visible to the checker" % o[3], b["span"],
                                         {"body": b["id"]}), self.cfg)
 
+        self.vp_fingerprints()
         self.back_doors()
         for k in self.reviewed:
             if k not in self.used_reviewed:
                 self.r.stale.append({"table": "c12_sites.toml", "key": k, "config": self.cfg})
+
+    # ------------------------------------------------------------------------------------
+    def vp_fingerprints(self):
+        """The automatic `derived` discharge trusts the in-crate callees listed as value-preserving. That
+        assumption is pinned: each such function's structural fingerprint (resolved callees + number of
+        aborting assertions) must equal the one recorded when the table line was reviewed."""
+        want = self.tab.get("value_preserving_fingerprints", {})
+        for b in self.f.fn_bodies():
+            n = norm_id(b["id"])
+            if n not in self.vp or b["kind"] == "Closure":
+                continue
+            view = mir.BodyView(b)
+            callees = sorted({norm_id(mir.callee_name(t) or "<indirect>") for bi, t in view.calls()
+                              if not view.blocks[bi]["cleanup"]})
+            guards = sum(1 for i in view.live_blocks() if view.abort_guard(i))
+            fp = callees + ["abort_guards:%d" % guards]
+            self.r.count("value_preserving_functions_pinned")
+            key = "c12.vpfn|%s" % n
+            if n not in want:
+                self.r.add(Instance(key, "c12.vpfn", "violation",
+                                    "value-preserving callee has no recorded fingerprint in tables/c12_sites.toml", b["span"],
+                                    {"fingerprint": fp}), self.cfg)
+            elif sorted(want[n]) == sorted(fp):
+                self.r.add(Instance(key, "c12.vpfn", "ok", "auto: fingerprint of the assumed value-preserving function is "
+                                    "unchanged", b["span"], {"fingerprint": fp}), self.cfg)
+            else:
+                self.r.add(Instance(key, "c12.vpfn", "violation",
+                                    "`%s` is assumed value-preserving by the NonZero/Odd `derived` rule, but its body changed "
+                                    "(callees/assertions now %s, reviewed %s): a truncating or otherwise value-changing "
+                                    "conversion would let an invalid value into a wrapper" % (b["id"], fp, sorted(want[n])),
+                                    b["span"], {"fingerprint": fp, "reviewed": sorted(want[n])}), self.cfg)
 
     # ------------------------------------------------------------------------------------
     def back_doors(self):
